@@ -993,6 +993,9 @@ class LangServer:
                     continue
                 # Skip comment lines
                 line = file_obj.strip_comment(line)
+                # The continuation mark of fixed form is not part of the statement
+                if file_obj.fixed and FRegex.FIXED_CONT.match(line):
+                    line = " " * 6 + line[6:]
                 if (line == "") or (line[0] == "#"):
                     continue
                 for match in NAME_REGEX.finditer(line):
